@@ -17,6 +17,7 @@
  *   HDR size hash             (svt_av1_enc_stream_header)
  *   END <reason>
  * packet file: for each packet  u32 size, i64 pts, bytes   (little endian) */
+#include "../no_rt.h"   /* ordinary threads instead of SCHED_FIFO/99 (see the header) */
 #include <stdio.h>
 #include <stdlib.h>
 #include <string.h>
